@@ -19,6 +19,8 @@ type flowBuilder struct {
 	nodeBuilder        *graphNodeBuilder
 	processorManager   *processors.ProcessorManager
 	resourceManagement *resources.ResourceManagement
+	// flows whose connections are currently being incorporated into another flow
+	incorporating map[string]struct{}
 }
 
 // newFlowBuilder creates a new instance of a flow builder.
@@ -32,6 +34,7 @@ func newFlowBuilder(filterTree internaltypes.FilterTreeI,
 		processorManager:   processorManager,
 		resourceManagement: resourceManagement,
 		flowReps:           flowReps,
+		incorporating:      make(map[string]struct{}),
 	}
 
 	builder.nodeBuilder = newGraphNodeBuilder(builder.flowReps, builder.processorManager)
@@ -258,6 +261,13 @@ func (fb *flowBuilder) incorporateFlow(flowName string, targetFlowDir *FlowDirec
 	if !exists {
 		return fmt.Errorf("flow '%s' not found", flowName)
 	}
+
+	// flows referencing each other (or themselves) would be incorporated without end
+	if _, inProgress := fb.incorporating[flowName]; inProgress {
+		return fmt.Errorf("circular reference to flow '%s'", flowName)
+	}
+	fb.incorporating[flowName] = struct{}{}
+	defer delete(fb.incorporating, flowName)
 
 	// build connections from the source flow and add all to target FlowDirection
 	connections := flowRep.GetFlow().GetFlowConnections(targetFlowDir.flowType)
